@@ -29,6 +29,11 @@ PROPERTY = 'C08'
 import bert_e.workflow.gitwaterflow as GWF  # noqa: E402
 
 
+# deleting a destination branch on request is allowed, losing its commits is not: the admin job may only remove the
+# branch after the archive tag of its tip has been created and pushed (contract of C20 on the real delete_branch)
+REUSED_CONTRACTS = (('c20', ('bert_e.jobs.delete_branch:delete_branch',)),)
+
+
 def base_env():
     env = handlers.base_env(PROPERTY)
     env.add_class('QEntry', kind='ref', fields={'qbranch': 'Br', 'qints': 'seq[Br]'},
